@@ -546,6 +546,181 @@ var DeepFamilies = []DeepFamily{
 	}},
 	{"heading-attributes", func(n int) []byte { return []byte("# h {" + rep("k=v ", n) + "#i}") }},
 	{"emphasis-run-length", func(n int) []byte { return []byte(rep("*", n) + "a" + rep("*", n) + " " + rep("_", n) + "b" + rep("_", n)) }},
+	// counted structures: n instances of a construct in an order or shape that makes the count matter (the thresholds at
+	// which an implementation switches algorithm, grows or recycles a buffer are unknown, so these are run at every boundary size)
+	{"footnotes-reverse", func(n int) []byte { return footnoteDoc(n, func(i int) int { return n - 1 - i }, 1, false) }},
+	{"footnotes-shuffled", func(n int) []byte { return footnoteDoc(n, func(i int) int { return (i*7 + 3) % max1(n) }, 1, false) }},
+	{"footnotes-defs-first", func(n int) []byte { return footnoteDoc(n, func(i int) int { return n - 1 - i }, 1, true) }},
+	{"footnotes-twice", func(n int) []byte { return footnoteDoc(n, func(i int) int { return (i*5 + 1) % max1(n) }, 2, false) }},
+	{"footnotes-some-unreferenced", func(n int) []byte {
+		var b strings.Builder
+		n = capN(n, 2000)
+		for i := n - 1; i >= 0; i-- {
+			if i%3 != 0 {
+				b.WriteString("x[^f" + itoa(i) + "] ")
+			}
+		}
+		b.WriteString("\n\n")
+		for i := 0; i < n; i++ {
+			b.WriteString("[^f" + itoa(i) + "]: note " + itoa(i) + " [^f" + itoa((i+1)%max1(n)) + "]\n\n")
+		}
+		return []byte(b.String())
+	}},
+	{"refdefs-bottom", func(n int) []byte {
+		var b strings.Builder
+		n = capN(n, 3000)
+		for i := n - 1; i >= 0; i-- {
+			b.WriteString("[R" + itoa(i) + "] ")
+		}
+		b.WriteString("\n\n")
+		for i := 0; i < n; i++ {
+			b.WriteString("[r" + itoa(i) + "]: /u" + itoa(i) + " \"t" + itoa(i) + "\"\n")
+		}
+		return []byte(b.String())
+	}},
+	{"refdefs-last-used", func(n int) []byte {
+		var b strings.Builder
+		n = capN(n, 3000)
+		for i := 0; i < n; i++ {
+			b.WriteString("[r" + itoa(i) + "]: /u" + itoa(i) + "\n")
+		}
+		b.WriteString("\n[r" + itoa(n-1) + "] [text][R" + itoa(n/2) + "] [r0][]\n")
+		return []byte(b.String())
+	}},
+	{"refdefs-spread", func(n int) []byte {
+		var b strings.Builder
+		n = capN(n, 2000)
+		for i := 0; i < n; i++ {
+			b.WriteString("see [r" + itoa((i*3+1)%max1(n)) + "] and ![R  " + itoa(i) + "][r" + itoa(i) + "]\n\n[r" + itoa(i) + "]: <u " + itoa(i) + ">\n\n")
+		}
+		return []byte(b.String())
+	}},
+	{"headings-same", func(n int) []byte { return []byte(rep("# a\n", capN(n, 3000)) + "\na\n===\n") }},
+	{"headings-long-common-prefix", func(n int) []byte {
+		var b strings.Builder
+		for i := 0; i < capN(n, 600); i++ {
+			b.WriteString("## " + rep("section ", 10) + itoa(i%3) + "\n\n")
+		}
+		return []byte(b.String())
+	}},
+	{"heading-long-title-twice", func(n int) []byte { return []byte("# " + rep("a", n) + "\n\n# " + rep("a", n) + "\n\n# " + rep("a", n) + " b\n") }},
+	{"table-sparse", func(n int) []byte {
+		n = capN(n, 520)
+		return []byte(rep("|h", n) + "|\n" + rep("|-", n) + "|\n" + rep("|x|\n", n))
+	}},
+	{"table-ragged", func(n int) []byte {
+		var b strings.Builder
+		n = capN(n, 300)
+		b.WriteString(rep("|h", n) + "|\n" + rep("|:-", n) + "|\n")
+		for i := 0; i <= n+2; i++ {
+			b.WriteString(rep("|c", i) + "|\n")
+		}
+		return []byte(b.String())
+	}},
+	{"table-code-and-escaped-pipes", func(n int) []byte {
+		var b strings.Builder
+		b.WriteString("| a | b |\n|---|:-:|\n")
+		for i := 0; i < capN(n, 2000); i++ {
+			switch i % 4 {
+			case 0:
+				b.WriteString("| `x` \\| `y` | `p\\|q` |\n")
+			case 1:
+				b.WriteString("| \\| `a\\|b` \\| `c` | d \\| e\n")
+			case 2:
+				b.WriteString("| `` ` `` \\| ` | *e* `f` \\|\n")
+			default:
+				b.WriteString("| g |\n")
+			}
+		}
+		return []byte(b.String())
+	}},
+	{"list-loose-before-last", func(n int) []byte { return []byte(rep("- a\n", capN(n, 5000)) + "\n- z\n") }},
+	{"list-second-block-after-blank", func(n int) []byte { return []byte(rep("- a\n", capN(n, 5000)) + "- b\n\n  c\n- d\n") }},
+	{"para-lines-then-loose-list", func(n int) []byte { return []byte(rep("text\n", capN(n, 5000)) + "\n- a\n  - b\n\n  - c\n- d\n") }},
+	{"quote-lines-then-loose-list", func(n int) []byte { return []byte(rep("> text\n", capN(n, 5000)) + ">\n> - a\n>\n> - b\n") }},
+	{"item-lines-then-loose-list", func(n int) []byte { return []byte("1. x\n" + rep("   text\n", capN(n, 5000)) + "\n   - a\n\n   - b\n2. y\n") }},
+	{"quote-nest-multi-line", func(n int) []byte {
+		n = capN(n, 400)
+		return []byte(rep(">", n) + " a\n" + rep(">", n) + " b\n" + rep(">", n/2) + " c\n")
+	}},
+	{"long-url-with-specials", func(n int) []byte {
+		u := "data:image/png;base64," + rep("A", n) + "&\"x"
+		return []byte("![a](<" + u + " y>) [b](" + u + ") [c][r]\n\n[r]: <" + u + " z>\n")
+	}},
+	{"long-text-special-at-end", func(n int) []byte { return []byte(rep("a", n) + "<&\"\n\n    " + rep("b", n) + "<&\"\n\n`" + rep("c", n) + "<&\"`\n\n```\n" + rep("d", n) + "<\n```\n") }},
+	{"long-alt", func(n int) []byte { return []byte("![" + rep("a ", n) + "*b* `c` \"<&](u \"" + rep("t", n) + "<\")") }},
+	{"long-attribute-value", func(n int) []byte { return []byte("# h {title=\"" + rep("a", n) + "<&\" data-x=" + rep("1", n) + "}\n") }},
+	{"multi-line-inline-title", func(n int) []byte {
+		n = capN(n, 500)
+		return []byte("[a](/u \"" + rep("t\n", n) + "t\") ![b](/v '" + rep("s\n", n) + rep("s", 70) + "') [c](/w (" + rep("r\n", n+1) + "r))\n")
+	}},
+	{"wrapped-reference-label", func(n int) []byte {
+		n = capN(n, 300)
+		l := rep("a\n", n) + "b"
+		return []byte("p [x]\nq [y]\n\n> [" + l + "] ![" + l + "] [" + l + "][]\n\n[" + strings.ReplaceAll(l, "\n", " ") + "]: /u\n")
+	}},
+	{"lazy-continuation-lines", func(n int) []byte { return []byte("> a\n" + rep("b\n", capN(n, 5000)) + "\n- c\n" + rep("d\n", capN(n, 5000))) }},
+	{"html-block-lines", func(n int) []byte { return []byte("<div>\n" + rep("x\n", capN(n, 5000)) + "</div>\n\n<!--\n" + rep("y\n", capN(n, 5000)) + "-->\nz\n") }},
+	{"fence-lines", func(n int) []byte { return []byte("```\n" + rep("x\n", capN(n, 5000)) + "```\n\n~~~\n" + rep("y\n", capN(n, 5000))) }},
+	{"hard-breaks", func(n int) []byte { return []byte(rep("a  \n", capN(n, 5000)) + rep("b\\\n", capN(n, 5000)) + "c") }},
+	{"task-items", func(n int) []byte { return []byte(rep("- [x] a\n- [ ] b\n", capN(n, 3000))) }},
+	{"strikethroughs", func(n int) []byte { return []byte(rep("~~a~~ ~b~ ", capN(n, 5000))) }},
+	{"wide-character-references", func(n int) []byte {
+		n = capN(n, 3000)
+		return []byte(rep("&#x65E5;", n) + "\n" + rep("&#x672C;", n) + "\n&#x3001;\nabc&#x3002;\n&#26085;\n&#26412;\n")
+	}},
+	{"emails-and-urls", func(n int) []byte { return []byte(rep("a@b.c http://d.e/f?g=h&i www.j.k ", capN(n, 3000))) }},
+	{"images-in-links", func(n int) []byte { return []byte(rep("[![a](b)](c) ", capN(n, 3000))) }},
+	{"definition-terms", func(n int) []byte { return []byte(rep("t\n", capN(n, 2000)) + ": d\n: e\n") }},
+	{"nested-emphasis-alternating", func(n int) []byte {
+		n = capN(n, 2000)
+		var b strings.Builder
+		for i := 0; i < n; i++ {
+			b.WriteString([]string{"*", "_"}[i%2])
+		}
+		b.WriteString("a")
+		for i := n - 1; i >= 0; i-- {
+			b.WriteString([]string{"*", "_"}[i%2])
+		}
+		return []byte(b.String())
+	}},
+}
+
+func capN(n, m int) int {
+	if n > m {
+		return m
+	}
+	return n
+}
+
+func max1(n int) int {
+	if n < 1 {
+		return 1
+	}
+	return n
+}
+
+// footnoteDoc: n footnotes; the k-th reference (k = 0..n-1) goes to footnote order(k); each referenced times times;
+// definitions before or after the references.
+func footnoteDoc(n int, order func(int) int, times int, defsFirst bool) []byte {
+	n = capN(n, 2500)
+	var refs, defs strings.Builder
+	for t := 0; t < times; t++ {
+		for k := 0; k < n; k++ {
+			refs.WriteString("x[^f" + itoa(order(k)) + "] ")
+			if k%10 == 9 {
+				refs.WriteString("\n")
+			}
+		}
+		refs.WriteString("\n\n")
+	}
+	for i := 0; i < n; i++ {
+		defs.WriteString("[^f" + itoa(i) + "]: note " + itoa(i) + "\n\n")
+	}
+	if defsFirst {
+		return []byte(defs.String() + refs.String())
+	}
+	return []byte(refs.String() + defs.String())
 }
 
 // FirstLimitFamily is the index of the first of the "limit" families (cheap at every boundary size).
